@@ -141,11 +141,12 @@ def retag_outcomes(e: Env, prev: tuple | None, cur_kind: str, cur_value: Any, be
             pk, pt = prev
             stack.append(token(pk, pt() if callable(pt) else pt))
         state = SObj("ParserState", {"value_stack": stack})
-        ip = SObj("InteractiveParser", {"parser_state": state, "_tokens": [cur]}, methods=("iter_parse", "resume_parse", "feed_token"))
+        ip = SObj("InteractiveParser", {"parser_state": state, "_tokens": [cur]}, methods=("iter_parse", "resume_parse", "feed_token", "copy"))
         lalr = SObj("Lark", {"_ip": ip}, methods=("parse_interactive", "parse"))
         inst = pai.Inst("parser.Parser")
         inst.attrs.update({"expand_includes": False, "include_comments": False, "_comments": [], "lalr": lalr, "kwargs": HDict()})
-        return inst, ["<text>"], {}
+        # the text itself is unknown: a decision taken by looking at the text may go either way
+        return inst, [SStr.atom("mapfile_text", free=True)], {}
 
     holder: dict[str, Any] = {}
 
@@ -153,6 +154,9 @@ def retag_outcomes(e: Env, prev: tuple | None, cur_kind: str, cur_value: Any, be
         if isinstance(recv, SObj) and recv.pytype == "Lark" and name == "parse_interactive":
             holder["ip"] = recv.attrs["_ip"]
             return recv.attrs["_ip"]
+        if isinstance(recv, SObj) and recv.pytype == "Lark" and name == "parse":
+            # the non-interactive entry point: the tokens go to the parser as the lexer typed them
+            return SObj("Tree", {"children": []})
         if isinstance(recv, SObj) and recv.pytype == "InteractiveParser":
             if name == "iter_parse":
                 return list(recv.attrs["_tokens"])
@@ -160,6 +164,8 @@ def retag_outcomes(e: Env, prev: tuple | None, cur_kind: str, cur_value: Any, be
                 return SObj("Tree", {"children": []})
             if name == "feed_token":
                 return None
+            if name == "copy":
+                return SObj("InteractiveParser", dict(recv.attrs), methods=("iter_parse", "resume_parse", "feed_token", "copy"))
         return NotImplemented
 
     I = e.interp(stubs={"hook:method": method_hook}, max_paths=64)
